@@ -51,6 +51,9 @@ def _work(job):
                                 witness_every=opts["witness_every"], time_budget=opts["case_budget"])
     except rt.HarnessError as e:
         res = {"case": case, "harness_error": str(e)}
+    except Exception as e:  # noqa: BLE001
+        import traceback
+        res = {"case": case, "harness_error": "worker: " + "".join(traceback.format_exception_only(type(e), e)).strip()[:300]}
     E = rt.ENGINE
     res["idx"] = idx
     res["funcs"] = sorted(E.funcs - _W["seen_funcs"])
